@@ -292,20 +292,31 @@ def _mk_payoff_fn(orig):
                 r = Fraction(float(self.start)) / Fraction(float(self.ul().dt))
                 k = math.floor(r)
                 cands = {k}
-                if abs(r - round(r)) <= Fraction(1, 10**9) * max(1, abs(r)):
-                    cands = {round(r), round(r) - 1, k}
+                on_grid = abs(r - round(r)) <= Fraction(1, 10**9) * max(1, abs(r))
+                if on_grid:
+                    # a start time written as k steps (k/250, k*dt, ...): the contract starts at step k (the convention the time grid itself follows
+                    # for maturities within rounding distance of a whole number of steps)
+                    cands = {round(r), round(r) - 1}
                 T = spot.shape[1]
                 cands = {c for c in cands if 0 <= c < T}
-                okc = False
+                okc = None
                 from ..core import Ctx
 
                 for c in sorted(cands, reverse=True):
                     probe = Ctx(ctx.pid, ctx.tier, ctx.seed)
                     judge_forward_start(probe, mon, spot, o, self.strike, c, -1, sig)
                     if not probe.violations and probe.evaluations:
-                        okc = True
+                        okc = c
                         break
-                if okc:
+                if okc is not None and on_grid and okc == round(r) - 1 and round(r) < T:
+                    # one step early.  Known for exactly those (start, dt) whose float quotient start / dt falls below the integer (floor(start / dt));
+                    # any other on-grid start that comes out one step early is a violation
+                    float_floor = math.floor(float(self.start) / float(self.ul().dt))
+                    key = "forward_start.float_ratio_below_integer" if float_floor == round(r) - 1 else "start_index"
+                    ctx.violation(mon, key, f"forward-start option with start={self.start!r} = {round(r)} steps of dt={self.ul().dt!r} takes its reference price at step "
+                                  f"{okc} (float quotient start / dt = {float(self.start) / float(self.ul().dt)!r})", sig=sig, start=self.start, dt=self.ul().dt,
+                                  strike=self.strike, step_used=okc, step_contract=round(r))
+                elif okc is not None:
                     ctx.ok(mon, sig=sig)
                 elif not cands:
                     ctx.ood(mon)
@@ -432,7 +443,9 @@ def _clause_lib(rng):
 
 def drv_derivative(ctx, k, rng):
     dtype = pick(rng, [None, F64, F64])
-    stock = P.make_stock(rng, pick(rng, ["brownian", "brownian", "heston", "merton", "kou"]), dtype=dtype)
+    # (also step sizes that are not the reciprocal of a whole number of steps per year)
+    stock = P.make_stock(rng, pick(rng, ["brownian", "brownian", "heston", "merton", "kou"]), dtype=dtype,
+                         dt=(float(pick(rng, [0.003, 2 / 365, 1.5 / 250, 0.3])) if rng.random() < 0.3 else None))
     n_steps = int(pick(rng, [0, 1, 2, 4, 20]))
     frac = float(pick(rng, [0.0, 0.0, 0.5, 0.25]))
     d = P.make_derivative(rng, stock, maturity=(n_steps + (frac if n_steps else 0.0)) * stock.dt, clauses=False)
@@ -489,7 +502,17 @@ def drv_derivative(ctx, k, rng):
         ctx.sample({"driver": "derivative", "derivative": repr(d)[:200], "clauses": order, "payoff_head": got[:3]})
 
 
+def drv_witness(ctx, k, rng):
+    """Fixed witness of the known finding forward_start.float_ratio_below_integer (43/250 / (1/250) = 42.99999999999999)."""
+    from pfhedge.instruments import BrownianStock, EuropeanForwardStartOption
+
+    d = EuropeanForwardStartOption(BrownianStock(dt=1 / 250, dtype=F64), strike=1.0, maturity=60 / 250, start=43 / 250)
+    d.simulate(n_paths=3)
+    d.payoff()
+
+
 DRIVERS = [
+    ("witness", 1, 1, drv_witness),
     ("functional", 300, 12000, drv_functional),
     ("derivative", 300, 8000, drv_derivative),
 ]
